@@ -362,7 +362,13 @@ fn run<B: SimField, H: ElementHasher<BaseField = B> + Send + Sync + 'static>(ch:
         }
     }
 
-    // 4. dependency by fault injection: flip one bit of one absorbed message in the proof
+    // 4. dependency by fault injection: flip one bit of one absorbed message in the proof.
+    // Not for a trace whose rows are all equal: its proof does not depend on any challenge and
+    // all Merkle leaves are equal, so e.g. another nonce (grinding 0) gives another CORRECT proof.
+    if case.rows.iter().all(|r| r == &case.rows[0]) {
+        ctx.probe("flip_skipped_for_constant_trace");
+        return;
+    }
     let targets = ["main", "aux", "constraint", "ood-trace", "ood-evals", "fri", "nonce"];
     let t = targets[ch.index("flip.target", targets.len())];
     let mut p2 = proof.clone();
@@ -423,6 +429,23 @@ fn run<B: SimField, H: ElementHasher<BaseField = B> + Send + Sync + 'static>(ch:
     let v2 = verify_with::<B, H, RecordingCoin<H>>(p2, case.inputs.clone(), &min_sec0());
     let flog = coin::take_log();
     ctx.event_with("flip", simcore::rng::fnv1a(format!("{t}{}", v2.short()).as_bytes()), || format!("bit flipped in {t}: verifier {} after {} coin operations", v2.short(), flog.len()));
+    if v2.accepted() && t == "nonce" {
+        // another nonce that satisfies the proof-of-work bound and leads to the same set of
+        // query positions yields another correct proof (possible on tiny domains with few queries)
+        let set = |l: &[CoinOp]| -> Vec<usize> {
+            let mut v = match l.last() {
+                Some(CoinOp::Integers { values, .. }) => values.clone(),
+                _ => vec![],
+            };
+            v.sort_unstable();
+            v.dedup();
+            v
+        };
+        if set(&vlog) == set(&flog) {
+            ctx.probe("flipped_nonce_gives_same_positions");
+            return;
+        }
+    }
     if v2.accepted() {
         ctx.violation(format!("C04/flipped-message-accepted {t}"), format!("a proof with one bit flipped in '{t}' was accepted; {}", ctxt()));
         return;
